@@ -15,7 +15,7 @@ Proof. intros H. unfold upd. destruct (Nat.eqb_spec j i); [contradiction|reflexi
 Definition holding (p : pc) : bool :=
   match p with
   | PTestH | PRet1 | PHas | PRet2 | PMk | PStart | PRel | PRelExc _
-  | RTest | RJoin | RRead | RTestL _ | RJoinL _ | RJoinW _ | RHas | RCallRun | RPopen | RConnect
+  | RTest | RJoin | RRead | RTestL _ | RJoinL _ | RJoinW _ | RHas | RCallRun | RPopen _ | RConnect _
   | RRel | RRelExc _ => true
   | _ => false
   end.
@@ -23,15 +23,15 @@ Definition holding (p : pc) : bool :=
 (* lines at which no starter can be active *)
 Definition hnone_pc (p : pc) : bool :=
   match p with
-  | PHas | PMk | RTestL None | RHas | RCallRun | RPopen | RConnect => true
+  | PHas | PMk | RTestL None | RHas | RCallRun | RPopen _ | RConnect _ => true
   | _ => false
   end.
 
 (* lines at which the connection attribute cannot exist *)
 Definition knone_pc (p : pc) : bool :=
-  match p with PMk | RCallRun | RPopen | RConnect => true | _ => false end.
+  match p with PMk | RCallRun | RPopen _ | RConnect _ => true | _ => false end.
 
-Definition conn_pc (p : pc) : bool := match p with RConnect => true | _ => false end.
+Definition conn_pc (p : pc) : bool := match p with RConnect _ => true | _ => false end.
 Definition pstart_pc (p : pc) : bool := match p with PStart => true | _ => false end.
 
 Definition joining_pc (p : pc) : option nat :=
@@ -105,8 +105,8 @@ Definition st_ok (g : shared) (n : nat) (pstart : Prop) (h : nat) (x : sstatus) 
   match x with
   | SUnborn => n <= h /\ handle g <> Some h
   | SNew => h < n /\ handle g = Some h /\ conn g = None /\ pstart
-  | S68 | S69 | SPopen => h < n /\ handle g = Some h /\ conn g = None
-  | SConnect => h < n /\ handle g = Some h /\ conn g = None /\ inflight g = 1
+  | S68 | S69 | SPopen _ => h < n /\ handle g = Some h /\ conn g = None
+  | SConnect _ => h < n /\ handle g = Some h /\ conn g = None /\ inflight g = 1
   | S71 _ => h < n /\ handle g = Some h
   | SDone _ => h < n /\ handle g <> Some h
   end.
@@ -117,7 +117,7 @@ Definition some_conn (cl : nat -> cthread) : Prop := exists i, on conn_pc (cl i)
 Record Inv (s : state) : Prop := {
   I_cl : forall j, cl_ok (sh s) (starters s) j (clients s j);
   I_st : forall h, st_ok (sh s) (nstarters s) (some_pstart (clients s)) h (starters s h);
-  I_in : inflight (sh s) = 0 \/ some_conn (clients s) \/ (exists h, starters s h = SConnect);
+  I_in : inflight (sh s) = 0 \/ some_conn (clients s) \/ (exists h a, starters s h = SConnect a);
   (* accounting: every launched server is connected, abandoned or being connected, and every
      connection made is either the current one or was deleted by a completed close() *)
   I_acc : launches (sh s) = connects (sh s) + failed (sh s) + inflight (sh s) /\
@@ -225,7 +225,7 @@ Lemma inflight_zero s i :
   Inv s -> lock (sh s) = Some i -> on conn_pc (clients s i) = false -> handle (sh s) = None ->
   inflight (sh s) = 0.
 Proof.
-  intros HI Hl Hc Hh. destruct (I_in _ HI) as [A|[[j A]|[h A]]]; [exact A| |].
+  intros HI Hl Hc Hh. destruct (I_in _ HI) as [A|[[j A]|[h [a0 A]]]]; [exact A| |].
   - exfalso. assert (Hj : lock (sh s) = Some j).
     { apply (I_cl _ HI j). apply (on_imp conn_pc); [|exact A].
       intros p Hp. apply hnone_holding, knone_hnone, conn_knone, Hp. }
@@ -378,8 +378,8 @@ Proof.
   pose proof (I_cl _ HI i) as Hi. unfold cl_ok, on, joining in Hi. rewrite Escr, Epc in Hi.
   destruct p; simpl in Hs, Hi; unfold keep, do_popen, do_connect in Hs;
     try match goal with
-        | E : _ = RPopen |- _ => destruct (o_popen o (popens (sh s))) eqn:Hop
-        | E : _ = RConnect |- _ => destruct (o_conn o (attempts (sh s))) eqn:Hoc
+        | E : _ = RPopen _ |- _ => destruct (o_popen o (popens (sh s))) eqn:Hop
+        | E : _ = RConnect _ |- _ => destruct (o_conn o (attempts (sh s))) eqn:Hoc
         end;
     break_match Hs; inversion Hs; subst g' st' n' out; clear Hs; opt_facts.
   (* branches of line 82 that the invariant excludes *)
@@ -397,7 +397,7 @@ Proof.
         try (destruct H2 as [H2 _]; congruence); try congruence;
         (split; [lia | intros X; injection X; lia]).
   - destruct Hi as (A & B & C & _). specialize (B eq_refl).
-    destruct (I_in _ HI) as [X|[X|[h X]]];
+    destruct (I_in _ HI) as [X|[X|[h [a0 X]]]];
       [ left; exact X
       | right; left; apply ex_on_upd; [unfold on; rewrite Escr, Epc; reflexivity|exact X] | ].
     exfalso. pose proof (I_st _ HI h) as Hh. rewrite X in Hh. simpl in Hh.
@@ -410,10 +410,10 @@ Proof.
       | rewrite (upd_other _ _ _ _ Hne); destruct (starters s h); simpl in *; try tauto;
         exfalso; destruct Hh as (_ & Hh & _); congruence ] end.
   - match goal with H1 : handle (sh s) = Some ?m, H2 : starters s ?m = SNew |- _ =>
-      destruct (I_in _ HI) as [X|[X|[h X]]];
+      destruct (I_in _ HI) as [X|[X|[h [a0 X]]]];
       [ left; exact X
       | right; left; apply ex_on_upd; [unfold on; rewrite Escr, Epc; reflexivity|exact X]
-      | right; right; exists h; rewrite upd_other; [exact X | intros ->; congruence] ] end.
+      | right; right; exists h, a0; rewrite upd_other; [exact X | intros ->; congruence] ] end.
   - (* run(): join returned *)
     t_cl HI i Escr.
     match goal with Hf : finished (starters s) ?h = true |- _ =>
@@ -454,8 +454,8 @@ Lemma sstep_inv s h g' x' :
          nstarters := nstarters s; starters := upd (starters s) h x' |}.
 Proof.
   intros HI Hs. pose proof (I_st _ HI h) as Hh.
-  assert (Z : forall x, starters s h = x -> x = SPopen -> inflight (sh s) = 0).
-  { intros x Ex ->. destruct (I_in _ HI) as [X|[[j X]|[h0 X]]]; [exact X| |]; exfalso.
+  assert (Z : forall x a, starters s h = x -> x = SPopen a -> inflight (sh s) = 0).
+  { intros x a Ex ->. destruct (I_in _ HI) as [X|[[j X]|[h0 [a0 X]]]]; [exact X| |]; exfalso.
     - rewrite Ex in Hh. simpl in Hh. destruct Hh as (_ & Hh & _).
       apply (on_imp _ _ _ conn_knone), (on_imp _ _ _ knone_hnone) in X.
       apply (I_cl _ HI j) in X. congruence.
@@ -465,8 +465,8 @@ Proof.
   destruct (starters s h) eqn:Est; simpl in Hs, Hh; unfold do_popen, do_connect in Hs;
     try discriminate;
     try match goal with
-        | E : _ = SPopen |- _ => destruct (o_popen o (popens (sh s))) eqn:Hop
-        | E : _ = SConnect |- _ => destruct (o_conn o (attempts (sh s))) eqn:Hoc
+        | E : _ = SPopen _ |- _ => destruct (o_popen o (popens (sh s))) eqn:Hop
+        | E : _ = SConnect _ |- _ => destruct (o_conn o (attempts (sh s))) eqn:Hoc
         end;
     inversion Hs; subst g' x'; clear Hs.
   all: assert (Hhd : handle (sh s) = Some h) by tauto.
@@ -479,7 +479,7 @@ Proof.
   all: try exact (I_jb _ HI).
   (* I_st *)
   all: try solve [intros h0; destruct (Nat.eq_dec h0 h) as [->|Hne];
-                  [ rewrite upd_same; simpl; try rewrite (Z _ eq_refl eq_refl); intuition congruence
+                  [ rewrite upd_same; simpl; try rewrite (Z _ _ eq_refl eq_refl); intuition congruence
                   | rewrite (upd_other _ _ _ _ Hne);
                     apply (st_ok_other _ _ _ _ _ _ _ _ (I_st _ HI h0) Hhd Hne); simpl; auto ]].
   (* I_acc *)
@@ -490,11 +490,11 @@ Proof.
   all: try solve [pose proof (I_acc _ HI) as [A1 A2]; destruct Hh as (_ & _ & _ & Hf);
                   rewrite Hf in A1 |- *; simpl; lia].
   (* I_in *)
-  all: try solve [right; right; exists h; apply upd_same].
+  all: try solve [right; right; exists h; eexists; apply upd_same].
   all: try solve [left; destruct Hh as (_ & _ & _ & Hf); rewrite Hf; reflexivity].
-  all: try solve [destruct (I_in _ HI) as [X|[X|[h0 X]]];
+  all: try solve [destruct (I_in _ HI) as [X|[X|[h0 [a0 X]]]];
                   [ left; exact X | right; left; exact X
-                  | right; right; exists h0; rewrite upd_other; [exact X|intros ->; congruence] ]].
+                  | right; right; exists h0, a0; rewrite upd_other; [exact X|intros ->; congruence] ]].
 Qed.
 End Step.
 
@@ -527,7 +527,7 @@ Proof. apply run_inv, init_inv. Qed.
 (* ---- consequences: one server per session ------------------------------------------------ *)
 Lemma inflight_le1 s : Inv s -> inflight (sh s) <= 1 /\ (inflight (sh s) = 1 -> conn (sh s) = None).
 Proof.
-  intros HI. destruct (I_in _ HI) as [A|[[j A]|[h A]]].
+  intros HI. destruct (I_in _ HI) as [A|[[j A]|[h [a0 A]]]].
   - rewrite A. split; [lia|discriminate].
   - pose proof (I_cl _ HI j) as (_ & _ & K & _ & E & _).
     rewrite (E A). split; [lia|]. intros _. apply K, (on_imp _ _ _ conn_knone), A.
@@ -684,7 +684,7 @@ Proof.
   destruct p; simpl in Hs, Hb, Hi; try discriminate Hb;
     unfold keep, do_popen, do_connect in Hs; rewrite ?Hf3, ?Gp in Hs;
     try match goal with
-        | E : _ = RConnect |- _ => pose proof (Gc (attempts (sh s))); destruct (o_conn o (attempts (sh s))) eqn:Hoc; [| |congruence]
+        | E : _ = RConnect _ |- _ => pose proof (Gc (attempts (sh s))); destruct (o_conn o (attempts (sh s))) eqn:Hoc; [| |congruence]
         end;
     break_match Hs; inversion Hs; subst g' st' n' out; clear Hs.
   all: try solve [exfalso; destruct Hi as (A & B & C & D & E & F);
@@ -753,13 +753,13 @@ Definition mu (p : pc) : nat :=
   | PStart => 5 | PRel => 4 | PRelExc _ => 4
   | CEntry => 24 | CTry => 23 | CGet => 22 | CExc => 21 | CRun => 20
   | RAcq => 19 | RAcqW => 18 | RTest => 17 | RRead => 17 | RJoin => 16 | RTestL _ => 16
-  | RJoinL _ => 15 | RJoinW _ => 14 | RHas => 13 | RCallRun => 12 | RPopen => 11 | RConnect => 10
+  | RJoinL _ => 15 | RJoinW _ => 14 | RHas => 13 | RCallRun => 12 | RPopen _ => 11 | RConnect _ => 10
   | RRel => 9 | RRelExc _ => 9 | CSend => 8 | CRecv => 7 | CIsOk => 6 | CRet => 5
   | KTry => 7 | KGet => 6 | KExc => 5 | KPass => 4 | KSend => 5 | KClose => 4 | KDel => 3
   end.
 
 Definition smu (x : sstatus) : nat :=
-  match x with SUnborn | SNew => 6 | S68 => 5 | S69 => 4 | SPopen => 3 | SConnect => 2
+  match x with SUnborn | SNew => 6 | S68 => 5 | S69 => 4 | SPopen _ => 3 | SConnect _ => 2
              | S71 _ => 1 | SDone _ => 0 end.
 
 Definition no_retry (o : oracle) : Prop := forall k, o_conn o k <> CRetry.
@@ -859,7 +859,7 @@ Theorem close_then_call c o s i rest k :
   o_popen o (popens (sh s)) = true -> o_conn o (attempts (sh s)) = COk ->
   let s' := run c o (repeat (Cl i) 22) s in
   launches (sh s') = S (launches (sh s)) /\ epoch (sh s') = S (epoch (sh s)) /\
-  conn (sh s') = Some fresh_conn /\ lock (sh s') = None /\ handle (sh s') = None /\
+  conn (sh s') = Some (fresh_conn (naddr (sh s))) /\ lock (sh s') = None /\ handle (sh s') = None /\
   t_script (clients s' i) = rest /\ t_exns (clients s' i) = t_exns (clients s i) /\
   t_answers (clients s' i) = S (t_answers (clients s i)).
 Proof.
@@ -867,9 +867,9 @@ Proof.
   pose proof (solo_view c o i 22 s) as V. fold s' in V. clearbody s'.
   destruct c as [f2 f3]. simpl in F2, F3. subst f2 f3.
   unfold lview in V.
-  destruct (sh s) as [lk hd cn la po att co fa ep inf] eqn:Eg.
+  destruct (sh s) as [lk hd cn la po att co fa ep inf na sv] eqn:Eg.
   destruct (clients s i) as [scr p ex an] eqn:Et.
-  destruct k as [kc kg kp].
+  destruct k as [kc kg kp ka].
   cbn [lock handle conn popens attempts launches epoch t_script t_pc t_exns t_answers c_closed] in *.
   subst lk hd cn kc scr p.
   change 22 with (15 + (1 + (1 + 5))) in V. rewrite !liter_add in V.
@@ -1061,7 +1061,7 @@ Proof.
     try (exfalso; apply Hcf; left; symmetry; exact Hop);
     unfold keep, do_popen, do_connect in Hs; rewrite ?Hf3, ?Gp in Hs;
     try match goal with
-        | E : _ = RConnect |- _ => pose proof (Gc (attempts (sh s))); destruct (o_conn o (attempts (sh s))) eqn:Hoc; [| |congruence]
+        | E : _ = RConnect _ |- _ => pose proof (Gc (attempts (sh s))); destruct (o_conn o (attempts (sh s))) eqn:Hoc; [| |congruence]
         end;
     break_match Hs; inversion Hs; subst g' st' n' out; clear Hs;
     repeat match goal with
@@ -1133,7 +1133,7 @@ Proof.
     match goal with H : conn _ = Some ?k0 |- _ => pose proof (F_pc _ _ HF _ H) as X end.
     pose proof (nrecv_upd s i (advance (clients s i) (Goto CRecv))
                   (set_conn (Some {| c_closed := false; c_gotclose := false;
-                                     c_pending := S (c_pending c0) |}) (sh s))
+                                     c_pending := S (c_pending c0); c_addr := c_addr c0 |}) (sh s))
                   (nstarters s) (starters s) Hlt) as Y.
     rewrite (on_goto _ _ _ _ _ Escr) in Y. unfold on in Y at 1. rewrite Escr, Epc in Y. simpl in Y. lia.
   - (* recv: one reply consumed, the thread leaves the recv line *)
@@ -1141,7 +1141,7 @@ Proof.
     match goal with H : conn _ = Some ?k0 |- _ => pose proof (F_pc _ _ HF _ H) as X end.
     pose proof (nrecv_upd s i (advance (clients s i) (Goto CIsOk))
                   (set_conn (Some {| c_closed := false; c_gotclose := c_gotclose c0;
-                                     c_pending := n |}) (sh s))
+                                     c_pending := n; c_addr := c_addr c0 |}) (sh s))
                   (nstarters s) (starters s) Hlt) as Y.
     rewrite (on_goto _ _ _ _ _ Escr) in Y. unfold on in Y at 1. rewrite Escr, Epc in Y. simpl in Y. lia.
 Qed.
@@ -1212,6 +1212,236 @@ Proof.
   destruct (conn (sh s)); [simpl in *; lia|contradiction].
 Qed.
 End CloseFree.
+
+(* ---- every launch listens on a fresh address, and the connection goes to the newest server ---- *)
+Definition gt_all (a : nat) (l : list nat) : Prop := Forall (fun x => x < a) l.
+
+Fixpoint sdec (l : list nat) : Prop :=       (* strictly decreasing *)
+  match l with [] => True | x :: r => gt_all x r /\ sdec r end.
+
+Definition addr_pc_ok (g : shared) (p : pc) : Prop :=
+  match p with
+  | RPopen a => a < naddr g /\ gt_all a (srv_addrs g)
+  | RConnect a => exists r, srv_addrs g = a :: r
+  | _ => True
+  end.
+
+Definition addr_st_ok (g : shared) (x : sstatus) : Prop :=
+  match x with
+  | SPopen a => a < naddr g /\ gt_all a (srv_addrs g)
+  | SConnect a => exists r, srv_addrs g = a :: r
+  | _ => True
+  end.
+
+Record Addr (s : state) : Prop := {
+  A_srv : sdec (srv_addrs (sh s)) /\ gt_all (naddr (sh s)) (srv_addrs (sh s));
+  A_len : length (srv_addrs (sh s)) = launches (sh s);
+  A_cl : forall i a l, t_script (clients s i) = a :: l -> addr_pc_ok (sh s) (t_pc (clients s i));
+  A_st : forall h, addr_st_ok (sh s) (starters s h);
+  A_conn : forall k, conn (sh s) = Some k -> exists r, srv_addrs (sh s) = c_addr k :: r
+}.
+
+Lemma gt_all_mono a b l : gt_all a l -> a <= b -> gt_all b l.
+Proof. unfold gt_all. intros H Hab. eapply Forall_impl; [|exact H]. simpl. intros; lia. Qed.
+
+Lemma sdec_nodup l : sdec l -> NoDup l.
+Proof.
+  induction l as [|x r IH]; intros H; [constructor|]. destruct H as [H1 H2].
+  constructor; [|apply IH, H2]. intros Hin. unfold gt_all in H1. rewrite Forall_forall in H1.
+  specialize (H1 _ Hin). lia.
+Qed.
+
+Lemma addr_pc_mono g g' p :
+  addr_pc_ok g p -> srv_addrs g' = srv_addrs g -> naddr g <= naddr g' -> addr_pc_ok g' p.
+Proof. destruct p; simpl; auto; intros H -> Hn; [destruct H; split; [lia|assumption]|assumption]. Qed.
+
+Lemma addr_st_mono g g' x :
+  addr_st_ok g x -> srv_addrs g' = srv_addrs g -> naddr g <= naddr g' -> addr_st_ok g' x.
+Proof. destruct x; simpl; auto; intros H -> Hn; [destruct H; split; [lia|assumption]|assumption]. Qed.
+
+Lemma init_addr scripts : Addr (init scripts).
+Proof.
+  constructor; simpl.
+  - split; [exact I|constructor].
+  - reflexivity.
+  - intros i a l H. unfold first_pc. rewrite H. destruct a; exact I.
+  - intros h. exact I.
+  - discriminate.
+Qed.
+
+Section AddrStep.
+Variable c : cfg.
+Variable o : oracle.
+
+Arguments advance : simpl never.
+
+Ltac break_match H :=
+  repeat match type of H with
+  | context [match ?x with _ => _ end] => destruct x eqn:?
+  | context [if ?x then _ else _] => destruct x eqn:?
+  end.
+
+(* a client inside _run excludes every other thread from _run *)
+Lemma in_run_alone s i a l :
+  Inv s -> t_script (clients s i) = a :: l -> knone_pc (t_pc (clients s i)) = true ->
+  (forall j a' l', j <> i -> t_script (clients s j) = a' :: l' -> knone_pc (t_pc (clients s j)) = false) /\
+  (forall h, match starters s h with SPopen _ | SConnect _ => False | _ => True end) /\
+  conn (sh s) = None.
+Proof.
+  intros HI E K.
+  assert (Ki : on knone_pc (clients s i) = true) by (unfold on; rewrite E; exact K).
+  pose proof (I_cl _ HI i) as (L & Hn & Kn & _).
+  assert (Hh : handle (sh s) = None) by (apply Hn, (on_imp _ _ _ knone_hnone), Ki).
+  assert (Hl : lock (sh s) = Some i).
+  { apply L, (on_imp _ _ _ hnone_holding), (on_imp _ _ _ knone_hnone), Ki. }
+  split; [|split; [|apply Kn, Ki]].
+  - intros j a' l' Hne E'. destruct (knone_pc (t_pc (clients s j))) eqn:X; [|reflexivity]. exfalso.
+    assert (Kj : on knone_pc (clients s j) = true) by (unfold on; rewrite E'; exact X).
+    pose proof (I_cl _ HI j) as (Lj & _).
+    assert (lock (sh s) = Some j).
+    { apply Lj, (on_imp _ _ _ hnone_holding), (on_imp _ _ _ knone_hnone), Kj. }
+    congruence.
+  - intros h. pose proof (I_st _ HI h) as B. destruct (starters s h); simpl in B; auto;
+      destruct B as (_ & B & _); congruence.
+Qed.
+
+Lemma cstep_addr s i a l p g' st' n' out :
+  Inv s -> Addr s -> t_script (clients s i) = a :: l -> t_pc (clients s i) = p ->
+  cstep c o i (sh s) (starters s) (nstarters s) p = Some (g', st', n', out) ->
+  Addr {| sh := g'; nclients := nclients s;
+          clients := upd (clients s) i (advance (clients s i) out);
+          nstarters := n'; starters := st' |}.
+Proof.
+  intros HI HA Escr Epc Hs.
+  pose proof (A_cl _ HA i _ _ Escr) as Hown. rewrite Epc in Hown.
+  destruct (A_srv _ HA) as [S1 S2].
+  assert (Hal : knone_pc p = true -> _) by (intros K; rewrite <- Epc in K; exact (in_run_alone s i a l HI Escr K)).
+  destruct p; simpl in Hs, Hown, Hal; unfold keep, do_popen, do_connect in Hs;
+    try match goal with
+        | E : _ = RPopen _ |- _ => destruct (o_popen o (popens (sh s))) eqn:Hop
+        | E : _ = RConnect _ |- _ => destruct (o_conn o (attempts (sh s))) eqn:Hoc
+        end;
+    break_match Hs; inversion Hs; subst g' st' n' out; clear Hs.
+  all: constructor; simpl.
+  (* A_len *)
+  all: try solve [pose proof (A_len _ HA); simpl; lia].
+  (* A_srv *)
+  all: try exact (A_srv _ HA).
+  all: try solve [split; [exact S1 | apply (gt_all_mono _ _ _ S2); lia]].
+  (* A_conn *)
+  all: try exact (A_conn _ HA).
+  all: try solve [intros k Hk; injection Hk as <-; simpl;
+                  match goal with H : conn _ = Some ?k0 |- _ => exact (A_conn _ HA _ H) end].
+  all: try solve [intros k Hk; discriminate Hk].
+  (* A_st: starter table unchanged or extended by SNew / S68 *)
+  all: try exact (A_st _ HA).
+  all: try solve [intros h'; apply (addr_st_mono _ _ _ (A_st _ HA h')); simpl; auto].
+  all: try solve [intros h'; unfold upd; destruct (Nat.eqb h' _); [exact I|];
+                  apply (addr_st_mono _ _ _ (A_st _ HA h')); simpl; auto].
+  (* A_cl *)
+  all: try solve [intros j a' l'; unfold upd; destruct (Nat.eqb_spec j i) as [->|Hne];
+                  [ rewrite ?advance_done, ?advance_answer, ?advance_raise;
+                    first [ solve [unfold next_op; simpl; rewrite Escr; simpl; intros X; unfold first_pc; rewrite X;
+                                   destruct a'; exact I]
+                          | solve [unfold advance; simpl; intros _; simpl; auto; try (split; [lia|assumption]); eauto] ]
+                  | intros X; apply (addr_pc_mono _ _ _ (A_cl _ HA j _ _ X)); simpl; auto ]].
+  - (* Popen succeeded: a is above every address used before *)
+    destruct Hown as [H1 H2]. split; [split; assumption|constructor; [exact H1|exact S2]].
+  - destruct (Hal eq_refl) as (Hoth & _ & _).
+    intros j a' l'. unfold upd. destruct (Nat.eqb_spec j i) as [->|Hne].
+    + unfold advance; simpl. intros _. exists (srv_addrs (sh s)). reflexivity.
+    + intros X. specialize (Hoth j a' l' Hne X).
+      destruct (t_pc (clients s j)); simpl in *; try exact I; discriminate.
+  - destruct (Hal eq_refl) as (_ & Hst & _). intros h'. specialize (Hst h').
+    destruct (starters s h'); simpl; auto; contradiction.
+  - destruct (Hal eq_refl) as (_ & _ & Hk). intros k X. congruence.
+  - (* Client succeeded: the connection goes to the address of the newest server *)
+    intros k X. injection X as <-. simpl. exact Hown.
+Qed.
+
+Lemma starter_in_run_alone s h :
+  Inv s -> (exists a, starters s h = SPopen a \/ starters s h = SConnect a) ->
+  (forall j a' l', t_script (clients s j) = a' :: l' -> knone_pc (t_pc (clients s j)) = false) /\
+  (forall h', h' <> h -> match starters s h' with SPopen _ | SConnect _ => False | _ => True end) /\
+  conn (sh s) = None.
+Proof.
+  intros HI [a Hs]. pose proof (I_st _ HI h) as B.
+  assert (Hh : handle (sh s) = Some h /\ conn (sh s) = None).
+  { destruct Hs as [Hs|Hs]; rewrite Hs in B; simpl in B; tauto. }
+  destruct Hh as [Hh Hk]. split; [|split; [|exact Hk]].
+  - intros j a' l' E'. destruct (knone_pc (t_pc (clients s j))) eqn:X; [|reflexivity]. exfalso.
+    assert (Kj : on knone_pc (clients s j) = true) by (unfold on; rewrite E'; exact X).
+    pose proof (I_cl _ HI j) as (_ & Hn & _).
+    assert (handle (sh s) = None) by (apply Hn, (on_imp _ _ _ knone_hnone), Kj). congruence.
+  - intros h' Hne. pose proof (I_st _ HI h') as B'. destruct (starters s h'); simpl in B'; auto;
+      destruct B' as (_ & B' & _); congruence.
+Qed.
+
+Lemma sstep_addr s h g' x' :
+  Inv s -> Addr s -> sstep o (sh s) (starters s h) = Some (g', x') ->
+  Addr {| sh := g'; nclients := nclients s; clients := clients s;
+          nstarters := nstarters s; starters := upd (starters s) h x' |}.
+Proof.
+  intros HI HA Hs. pose proof (A_st _ HA h) as Hown. destruct (A_srv _ HA) as [S1 S2].
+  assert (Hal : (exists a, starters s h = SPopen a \/ starters s h = SConnect a) -> _)
+    by (exact (starter_in_run_alone s h HI)).
+  destruct (starters s h) eqn:Est; simpl in Hs, Hown; try discriminate; unfold do_popen, do_connect in Hs;
+    try match goal with
+        | E : _ = SPopen _ |- _ => destruct (o_popen o (popens (sh s)))
+        | E : _ = SConnect _ |- _ => destruct (o_conn o (attempts (sh s)))
+        end;
+    injection Hs as <- <-.
+  all: constructor; simpl.
+  all: try solve [pose proof (A_len _ HA); simpl; lia].
+  all: try exact (A_srv _ HA).
+  all: try solve [split; [exact S1 | apply (gt_all_mono _ _ _ S2); lia]].
+  all: try exact (A_conn _ HA).
+  all: try solve [intros j a' l' X; apply (addr_pc_mono _ _ _ (A_cl _ HA j _ _ X)); simpl; auto].
+  all: try solve [intros h'; unfold upd; destruct (Nat.eqb_spec h' h) as [->|Hne];
+                  [ simpl; auto; try (split; [lia|assumption])
+                  | apply (addr_st_mono _ _ _ (A_st _ HA h')); simpl; auto ]].
+  - destruct Hown as [H1 H2]. split; [split; assumption|constructor; [exact H1|exact S2]].
+  - destruct (Hal (ex_intro _ a (or_introl eq_refl))) as (Hoth & _ & _).
+    intros j a' l' X. specialize (Hoth j a' l' X).
+    destruct (t_pc (clients s j)); simpl in *; try exact I; discriminate.
+  - destruct (Hal (ex_intro _ a (or_introl eq_refl))) as (_ & Hst & _).
+    intros h'. unfold upd. destruct (Nat.eqb_spec h' h) as [->|Hne].
+    + simpl. exists (srv_addrs (sh s)). reflexivity.
+    + specialize (Hst h' Hne). destruct (starters s h'); simpl; auto; contradiction.
+  - destruct (Hal (ex_intro _ a (or_introl eq_refl))) as (_ & _ & Hk). intros k X. congruence.
+  - intros k X. injection X as <-. simpl. exact Hown.
+Qed.
+
+Lemma step_addr s t s' : Inv s -> Addr s -> step c o s t = Some s' -> Addr s'.
+Proof.
+  intros HI HA H. destruct t as [i|h]; simpl in H.
+  - destruct (t_script (clients s i)) as [|a l] eqn:Escr; [discriminate|].
+    destruct (cstep c o i (sh s) (starters s) (nstarters s) (t_pc (clients s i)))
+      as [[[[g' st'] n'] out]|] eqn:Ec; [|discriminate].
+    injection H as <-. eapply cstep_addr; eauto.
+  - destruct (sstep o (sh s) (starters s h)) as [[g' x']|] eqn:Es; [|discriminate].
+    injection H as <-. eapply sstep_addr; eauto.
+Qed.
+
+Lemma run_addr sched : forall s, Inv s -> Addr s -> Addr (run c o sched s).
+Proof.
+  unfold run. induction sched as [|t r IH]; intros s HI HA; simpl; [exact HA|].
+  unfold step_or_stay at 2. destruct (step c o s t) eqn:E.
+  - apply IH; [eapply step_inv; eauto | eapply step_addr; eauto].
+  - apply IH; assumption.
+Qed.
+
+(* Every server is launched on an address no earlier launch of this client used, and the
+   connection (if any) goes to the address of the most recently launched server. *)
+Theorem fresh_addresses scripts sched :
+  let s := run c o sched (init scripts) in
+  NoDup (srv_addrs (sh s)) /\ length (srv_addrs (sh s)) = launches (sh s) /\
+  (forall k, conn (sh s) = Some k -> exists r, srv_addrs (sh s) = c_addr k :: r).
+Proof.
+  intros s. assert (HA : Addr s) by (apply run_addr; [apply init_inv|apply init_addr]).
+  split; [apply sdec_nodup, (A_srv _ HA)|]. split; [exact (A_len _ HA)|exact (A_conn _ HA)].
+Qed.
+End AddrStep.
 
 (* ---- witness schedule of the handle race on the pinned run() (C16_F3_refuted) ------------------ *)
 Definition f3_scripts : list (list op) := [[Prepare]; [Call]].
